@@ -11,6 +11,7 @@
      processSettings                 : SETTINGS_INITIAL_WINDOW_SIZE: every open stream's window moves by the
                                        difference (may become negative); SETTINGS_MAX_FRAME_SIZE stored       (Settings)
    The peer (receiver) only knows what it granted: the initial window in force plus its WINDOW_UPDATEs.
+   SETTINGS_MAX_FRAME_SIZE is changed by the peer the same way (action SetMfs).
    A SETTINGS change is made by the peer only when the sender is quiet (nothing it may send), because a DATA frame
    taken under the old value may legitimately follow the acknowledgement otherwise.
 
@@ -18,7 +19,10 @@
      "NoConnCharge"      DATA is charged to the stream window only
      "IgnoreFrameSize"   the amount taken is not capped by the peer's maximum frame size
      "NoSettingsAdjust"  a new SETTINGS_INITIAL_WINDOW_SIZE is not applied to the windows of open streams
-     "LostWakeup"        a WINDOW_UPDATE that arrives while the sender waits does not wake it *)
+     "LostWakeup"        a WINDOW_UPDATE that arrives while the sender waits does not wake it
+     "FrameSizeAtBodyStart"  the cap on a DATA frame is the peer's maximum frame size read when the body began, not the
+                         one in force when the bytes are taken (the peer may lower it while the sender is parked on a
+                         closed window - a quiet point) *)
 EXTENDS Integers, Sequences, FiniteSets, TLC, Json
 
 CONSTANTS Streams,    \* model stream names, 1..n
@@ -26,7 +30,7 @@ CONSTANTS Streams,    \* model stream names, 1..n
           Wins,       \* SETTINGS_INITIAL_WINDOW_SIZE values (units)
           ConnWins,   \* connection window at the start of a case (units)
           Incs,       \* WINDOW_UPDATE increments
-          Mfs,        \* maximum frame size (units)
+          Mfs,        \* maximum frame sizes (units) the peer may have in force: the first one of a case is chosen in Init
           MaxOps,     \* peer operations per case
           Defects
 
@@ -36,8 +40,9 @@ VARIABLES body, sent, ended,     \* per stream: bytes to send, bytes put on the 
           iws, sgrant, cgrant,   \* the peer's books: initial window in force, total granted per stream / connection
           csent, lastN,          \* bytes on the connection; length of the last DATA frame
           over,                  \* ghost: a DATA frame went beyond what the peer had granted to its stream at that moment
+          mfs, big,              \* the peer's maximum frame size in force; ghost: a DATA frame was larger than that
           hist, flushed, cfg
-vars == <<body, sent, ended, swin, cwin, asleep, iws, sgrant, cgrant, csent, lastN, over, hist, flushed, cfg>>
+vars == <<body, sent, ended, swin, cwin, asleep, iws, sgrant, cgrant, csent, lastN, over, mfs, big, hist, flushed, cfg>>
 
 Min(a, b) == IF a < b THEN a ELSE b
 Max(a, b) == IF a > b THEN a ELSE b
@@ -54,7 +59,8 @@ Init == /\ body \in [Streams -> Bodies]
         /\ sent = [s \in Streams |-> 0] /\ ended = [s \in Streams |-> FALSE] /\ asleep = [s \in Streams |-> FALSE]
         /\ swin = [s \in Streams |-> iws] /\ sgrant = [s \in Streams |-> iws]
         /\ cgrant = cwin /\ csent = 0 /\ lastN = 0 /\ over = FALSE /\ hist = <<>> /\ flushed = FALSE
-        /\ cfg = [body |-> body, iws |-> iws, c0 |-> cwin, mfs |-> Mfs]
+        /\ mfs \in Mfs /\ big = FALSE
+        /\ cfg = [body |-> body, iws |-> iws, c0 |-> cwin, mfs |-> mfs]
 
 Avail(s) == IF "NoConnCharge" \in Defects THEN swin[s] ELSE Min(swin[s], cwin)
 
@@ -62,20 +68,22 @@ Avail(s) == IF "NoConnCharge" \in Defects THEN swin[s] ELSE Min(swin[s], cwin)
 Send(s) == /\ body[s] - sent[s] > 0 /\ ~asleep[s]
            /\ IF Avail(s) <= 0
               THEN /\ "LostWakeup" \in Defects /\ asleep' = [asleep EXCEPT ![s] = TRUE]     \* cond.Wait()
-                   /\ UNCHANGED <<sent, swin, cwin, csent, lastN, over>>
+                   /\ UNCHANGED <<sent, swin, cwin, csent, lastN, over, big>>
               ELSE LET n0 == Min(Avail(s), body[s] - sent[s])
-                       n  == IF "IgnoreFrameSize" \in Defects THEN n0 ELSE Min(n0, Mfs)
+                       cap == IF "FrameSizeAtBodyStart" \in Defects THEN cfg.mfs ELSE mfs
+                       n  == IF "IgnoreFrameSize" \in Defects THEN n0 ELSE Min(n0, cap)
                    IN /\ sent' = [sent EXCEPT ![s] = @ + n]
                       /\ swin' = [swin EXCEPT ![s] = @ - n]
                       /\ cwin' = IF "NoConnCharge" \in Defects THEN cwin ELSE cwin - n
                       /\ csent' = csent + n /\ lastN' = n
                       /\ over' = (over \/ sent[s] + n > sgrant[s])
+                      /\ big' = (big \/ n > mfs)
                       /\ UNCHANGED asleep
-           /\ UNCHANGED <<body, ended, iws, sgrant, cgrant, hist, flushed, cfg>>
+           /\ UNCHANGED <<body, ended, iws, sgrant, cgrant, mfs, hist, flushed, cfg>>
 
 End(s) == /\ body[s] = sent[s] /\ ~ended[s]
           /\ ended' = [ended EXCEPT ![s] = TRUE]
-          /\ UNCHANGED <<body, sent, swin, cwin, asleep, iws, sgrant, cgrant, csent, lastN, over, hist, flushed, cfg>>
+          /\ UNCHANGED <<body, sent, swin, cwin, asleep, iws, sgrant, cgrant, csent, lastN, over, mfs, big, hist, flushed, cfg>>
 
 Quiet == \A s \in Streams : ~(body[s] - sent[s] > 0 /\ Avail(s) > 0 /\ ~asleep[s])
 Awake == IF "LostWakeup" \in Defects THEN asleep ELSE [s \in Streams |-> FALSE]
@@ -86,13 +94,13 @@ WU(s, n) == /\ MoreOps
             /\ swin' = [swin EXCEPT ![s] = @ + n] /\ sgrant' = [sgrant EXCEPT ![s] = @ + n]
             /\ asleep' = Awake
             /\ hist' = Append(hist, Op("wu", s, n))
-            /\ UNCHANGED <<body, sent, ended, cwin, iws, cgrant, csent, lastN, over, flushed, cfg>>
+            /\ UNCHANGED <<body, sent, ended, cwin, iws, cgrant, csent, lastN, over, mfs, big, flushed, cfg>>
 
 WUC(n) == /\ MoreOps
           /\ cwin' = cwin + n /\ cgrant' = cgrant + n
           /\ asleep' = Awake
           /\ hist' = Append(hist, Op("wuc", 0, n))
-          /\ UNCHANGED <<body, sent, ended, swin, iws, sgrant, csent, lastN, over, flushed, cfg>>
+          /\ UNCHANGED <<body, sent, ended, swin, iws, sgrant, csent, lastN, over, mfs, big, flushed, cfg>>
 
 Settings(w) == /\ MoreOps /\ Quiet /\ w # iws
                /\ iws' = w
@@ -100,7 +108,13 @@ Settings(w) == /\ MoreOps /\ Quiet /\ w # iws
                /\ swin' = IF "NoSettingsAdjust" \in Defects THEN swin ELSE [s \in Streams |-> swin[s] + (w - iws)]
                /\ asleep' = Awake
                /\ hist' = Append(hist, Op("set", 0, w))
-               /\ UNCHANGED <<body, sent, ended, cwin, cgrant, csent, lastN, over, flushed, cfg>>
+               /\ UNCHANGED <<body, sent, ended, cwin, cgrant, csent, lastN, over, mfs, big, flushed, cfg>>
+
+SetMfs(m) == /\ MoreOps /\ Quiet /\ m # mfs
+             /\ mfs' = m
+             /\ asleep' = Awake
+             /\ hist' = Append(hist, Op("mfs", 0, m))
+             /\ UNCHANGED <<body, sent, ended, swin, cwin, iws, sgrant, cgrant, csent, lastN, over, big, flushed, cfg>>
 
 (* at the end of a case the peer grants exactly what is still missing *)
 Flush == /\ ~flushed /\ Quiet
@@ -111,12 +125,13 @@ Flush == /\ ~flushed /\ Quiet
                /\ cwin' = cwin + cn /\ cgrant' = cgrant + cn
          /\ asleep' = Awake
          /\ flushed' = TRUE
-         /\ UNCHANGED <<body, sent, ended, iws, csent, lastN, over, hist, cfg>>
+         /\ UNCHANGED <<body, sent, ended, iws, csent, lastN, over, mfs, big, hist, cfg>>
 
 Next == \/ \E s \in Streams : Send(s) \/ End(s)
         \/ \E s \in Streams, n \in Incs : WU(s, n)
         \/ \E n \in Incs : WUC(n)
         \/ \E w \in Wins : Settings(w)
+        \/ \E m \in Mfs : SetMfs(m)
         \/ Flush
 Spec == Init /\ [][Next]_vars
 
@@ -125,7 +140,7 @@ Spec == Init /\ [][Next]_vars
 \*  not of every state)
 StreamWindow == ~over
 ConnWindow   == csent <= cgrant
-FrameSize    == lastN <= Mfs
+FrameSize    == ~big
 NoOverrun    == \A s \in Streams : sent[s] <= body[s]
 BooksAgree   == /\ \A s \in Streams : swin[s] = sgrant[s] - sent[s]
                 /\ cwin = cgrant - csent
